@@ -21,7 +21,7 @@ KF_KINDS = ("recursive-class", "self-type", "slots-descriptor-default", "field-s
 
 
 def _replay_of(case: dict, res: dict) -> dict:
-    return {"entry": "c20_oracle.run_case", "source": case["source"], "roots": case["roots"], "mode": case["mode"],
+    return {"entry": "c20_oracle.run_case", "source": case["source"], "lib": case.get("lib"), "roots": case["roots"], "mode": case["mode"],
             "params": case["params"], "feats": case["feats"],
             "observed": {k: v for k, v in res.items() if k != "ok"},
             "expected": "no exception; metaschema-valid; refs closed over context.definitions; from_dict/to_dict round trip"}
@@ -195,6 +195,49 @@ def defaults_part(ctx: vlib.Ctx):
                 ctx.fail(f"{res['what']} [default {dv} of type {ty} under Config({'; '.join(cfg)})]", _replay_of(case, res), sig)
 
 
+# types that live in ANOTHER module: string annotations resolvable only there (NamedTuple / TypedDict / dataclass), and a third-party
+# type that is serializable only through a strategy (from Config, from Config.dialect, from both), with defaults of every form
+LIB_HEAD = ("import __C20_LIB__ as lib\nfrom __C20_LIB__ import LNT, LTD, LD, Pt\nfrom dataclasses import dataclass, field\nfrom typing import *\n"
+            "from mashumaro.config import BaseConfig, ADD_DIALECT_SUPPORT\nfrom mashumaro.dialect import Dialect\nfrom mashumaro import DataClassDictMixin\n"
+            "def ser_str(v) -> str:\n    return str(v)\n"
+            "class DP(Dialect):\n    serialization_strategy = {Pt: lib.PT_STRATEGY}\n"
+            "class DPo(Dialect):\n    omit_none = True\n    omit_default = True\n    serialize_by_alias = True\n    serialization_strategy = {Pt: lib.PT_STRATEGY}\n"
+            "class DI(Dialect):\n    serialization_strategy = {int: {'serialize': ser_str}}\n")
+XMOD_FORMS = ["LNT", "List[LNT]", "Optional[LNT]", "Tuple[LNT, ...]", "Dict[str, LNT]", "Tuple[LNT, int]", "Union[LNT, int]", "Final[LNT]",
+              "LTD", "List[LTD]", "LD", "Optional[LD]", "Dict[str, List[LD]]"]
+TP_FORMS = [("Pt", "Pt(1)"), ("Optional[Pt]", "None"), ("Optional[Pt]", "Pt(2)"), ("Tuple[Pt, ...]", "(Pt(1), Pt())"), ("Tuple[Pt, int]", "(Pt(3), 1)"),
+            ("List[Pt]", "field(default_factory=list)"), ("Dict[str, Pt]", "field(default_factory=dict)"), ("Union[Pt, None, int]", "Pt(4)"),
+            ("Final[Pt]", "Pt(5)"), ("Pt", None)]
+TP_CONFIGS = [["serialization_strategy = {Pt: lib.PT_STRATEGY}"], ["dialect = DP"], ["dialect = DPo", "aliases = {'x': 'x x'}"],
+              ["dialect = DI", "serialization_strategy = {Pt: lib.PT_STRATEGY}"], ["dialect = DP", "omit_default = True", "omit_none = True"],
+              ["dialect = DP", "code_generation_options = [ADD_DIALECT_SUPPORT]", "lazy_compilation = True"]]
+
+
+def library_part(ctx: vlib.Ctx):
+    from harness.props.c20_gen import LIB_SRC
+    base = {"dialect": None, "all_refs": None, "ref_prefix": None, "with_definitions": True, "with_dialect_uri": False, "context": None}
+    cases = []
+    for i, form in enumerate(XMOD_FORMS):
+        for j, cfg in enumerate(([], ["namedtuple_as_dict = True", "omit_none = True"])):
+            src = LIB_HEAD + f"@dataclass\nclass X:\n    x: {form}\n    y: int = 0\n" + ("    class Config(BaseConfig):\n" + "".join(f"        {c}\n" for c in cfg) if cfg else "")
+            cases.append((f"xmod {form} Config({'; '.join(cfg)})", src, (i + j) % 2 == 1))
+    for i, (ty, dv) in enumerate(TP_FORMS):
+        for j, cfg in enumerate(TP_CONFIGS):
+            base_cls = "(DataClassDictMixin)" if (i + j) % 3 == 0 else ""
+            src = LIB_HEAD + f"@dataclass\nclass X{base_cls}:\n    x: {ty}" + (f" = {dv}" if dv else "") + "\n    class Config(BaseConfig):\n" + "".join(f"        {c}\n" for c in cfg)
+            cases.append((f"third-party {ty} = {dv} Config({'; '.join(cfg)})", src, (i + j) % 2 == 0))
+    for label, src, ar in cases:
+        case = {"source": src, "lib": LIB_SRC, "roots": ["X"], "mode": "single", "feats": [{}], "params": dict(base, all_refs=ar)}
+        res = c20_oracle.run_case(case)
+        if res["ok"] is None:
+            ctx.hist("library_grid", "excluded:" + res["what"][:70])
+            continue
+        ctx.count(("library", label))
+        ctx.hist("library_grid", "ok" if res["ok"] else "fail")
+        if not res["ok"]:
+            ctx.fail(f"{res['what']} [{label}]", _replay_of(case, res), {"clause": res.get("clause"), "exc": res.get("exc"), "kind": "other", "grid": label})
+
+
 def directed_part(ctx: vlib.Ctx):
     from mashumaro.jsonschema import build_json_schema
     from mashumaro.jsonschema.models import JSONSchema
@@ -244,6 +287,7 @@ def run(ctx: vlib.Ctx):
     directed_part(ctx)
     degenerate_part(ctx)
     defaults_part(ctx)
+    library_part(ctx)
     oracle_part(ctx, n)
     ctx.trusted.append("jsonschema package (Draft202012Validator.check_schema incl. format checks) as the metaschema validator of the oracle")
     ctx.trusted.append("harness/props/c20_gen.py: the feature predicates (cyclic, Self, slots, field-level overrides, Final, NamedTuple "
@@ -256,7 +300,8 @@ def run(ctx: vlib.Ctx):
 
 def replay(rep: dict) -> int:
     if rep.get("entry") == "c20_oracle.run_case":
-        case = {"source": rep["source"], "roots": rep["roots"], "mode": rep["mode"], "params": rep["params"], "feats": rep.get("feats", [{}])}
+        case = {"source": rep["source"], "lib": rep.get("lib"), "roots": rep["roots"], "mode": rep["mode"], "params": rep["params"],
+                "feats": rep.get("feats", [{}])}
         res = c20_oracle.run_case(case)
         print("roots", rep["roots"], "mode", rep["mode"], "params", rep["params"])
         print("observed now:", {k: v for k, v in res.items()})
